@@ -84,6 +84,8 @@ static void *watchdog(void *arg)
 				vh_violation("C08", "hang", "no thread changed state for 12 s :: signature=%s :: %s", sig, buf);
 				printf("HANGSIG %s\n", sig);
 				fflush(stdout);
+				if(getenv("OMPI_COMM_WORLD_RANK"))
+					sleep(3); /* let the watchdogs of the other ranks write their picture too before the launcher kills them */
 				_exit(3);
 			}
 		} else {
